@@ -8,6 +8,8 @@
     returns a plan over actions of the ORIGINAL problem).
 (B) the same on a few representative problems under ALL adversarial renamings with <= 2
     adversarial names (separator characters, prefixes of one another, mangled forms).
+(H) every compiler, and four factory-built CompilersPipelines, as ONE object compiling two
+    problems in a row (all ordered pairs of 6 problems): both results judged afterwards.
 """
 from __future__ import annotations
 
@@ -24,7 +26,8 @@ RULE = (
     "(A) compilers {grounder, cerm, dcrm, ncrm, qurm, utfr, btrm, sirm, tcrm, uinr} x U-PROB "
     "instances (C06 universe) and {t2s, datp} x U-TEMP instances (levels 0,1); (B) the compilers x 3 "
     "representative problems x all renamings with <= 2 adversarial names (U-NAME); an evaluation is "
-    "one compile call with all well-formedness checks; non-trivial = compile call whose result "
+    "one compile call with all well-formedness checks; (H) each compiler and 4 factory pipelines as one object "
+    "compiling every ordered pair of 6 problems, both results judged after the second call; non-trivial = compile call whose result "
     "differs from the input problem (action set, fluents or names)"
 )
 ASSUMPTIONS = [
@@ -73,6 +76,8 @@ def shards(tier, seed):
         for sh in su.chunk_cases(ids, seed, per_level_chunks={0: 1, 1: 2, 2: 6}, key="asg"):
             sh["compiler"], sh["part"] = key, "B"
             out.append(sh)
+    for key in hist_keys():
+        out.append({"level": 1, "compiler": key, "part": "H"})
     out.sort(key=lambda s: s["level"])
     return out
 
@@ -80,6 +85,11 @@ def shards(tier, seed):
 def run_shard(shard, tier, seed):
     acc = Acc()
     key = shard["compiler"]
+    if shard["part"] == "H":
+        for a in HIST_PROBS:
+            for b in HIST_PROBS:
+                history(key, a, b, acc)
+        return acc
     if shard["part"] == "A":
         for cid in shard["cids"]:
             cid = tuple(tuple(x) for x in cid)
@@ -101,9 +111,81 @@ def run_shard(shard, tier, seed):
     return acc
 
 
+# ---- part H: one compiler OBJECT used for two compile calls -------------------------------------
+HIST_PROBS = [(), (("a1.eff2", 8),), (("a1.pre1", 5),), (("a2.eff2", 22),), (("a1.pre1", 9),), (("a3.eff1", 10),)]
+
+
+def pipes():
+    from unified_planning.engines import CompilationKind as CK
+
+    return {
+        "pipe:grounder>cerm": [CK.GROUNDING, CK.CONDITIONAL_EFFECTS_REMOVING],
+        "pipe:cerm>grounder": [CK.CONDITIONAL_EFFECTS_REMOVING, CK.GROUNDING],
+        "pipe:qurm>cerm>grounder": [CK.QUANTIFIERS_REMOVING, CK.CONDITIONAL_EFFECTS_REMOVING, CK.GROUNDING],
+        "pipe:dcrm>ncrm": [CK.DISJUNCTIVE_CONDITIONS_REMOVING, CK.NEGATIVE_CONDITIONS_REMOVING],
+    }
+
+
+def hist_keys():
+    return list(cc.COMPILER_KEYS) + list(pipes())
+
+
+def history(key, a, b, acc):
+    """compile problem a, then problem b, with ONE compiler object; judge both results afterwards."""
+    from mc.gen.spec import fresh_env
+
+    variant = cc.VARIANT.get(key)
+    env = fresh_env()
+    try:
+        pa, _ = gp.build_problem(uprob.make(dict(a), variant), env)
+        pb, _ = gp.build_problem(uprob.make(dict(b), variant), env)
+    except Exception:
+        acc.count("skipped_rejected_at_build")
+        return
+    if key.startswith("pipe:"):
+        cks = pipes()[key]
+        try:
+            comp = env.factory.Compiler(problem_kind=pa.kind, compilation_kinds=cks)
+        except Exception:
+            acc.count("skipped_no_pipeline")
+            return
+        call = lambda pr: comp.compile(pr)
+        supports = lambda pr: True
+    else:
+        Cls, ck = _get(key)
+        comp = Cls()
+        call = lambda pr: comp.compile(pr, ck)
+        supports = lambda pr: Cls.supports(pr.kind)
+    if not (supports(pa) and supports(pb)):
+        acc.count("skipped_unsupported_kind")
+        return
+    results = []
+    for pr in (pa, pb):
+        try:
+            results.append(call(pr))
+        except Exception:
+            acc.count("skipped_compile_raises")  # judged by part A on a fresh compiler object
+            return
+    acc.count("evaluations")
+    acc.count("histories")
+    lab = "%s;%s" % (cc.label("", a).lstrip(":"), cc.label("", b).lstrip(":"))
+    for which, pr, res in (("first", pa, results[0]), ("second", pb, results[1])):
+        def viol(sub, what, which=which):
+            acc.violation(
+                "reuse:%s:%s:%s|%s" % (which, sub, key, lab),
+                "one %s object compiled two problems; judging the %s result afterwards: %s" % (key, which, what),
+                {"part": "H", "compiler": key, "a": tj(a), "b": tj(b)},
+            )
+
+        judge_result(key if not key.startswith("pipe:") else "pipe", pr, res, viol, acc)
+
+
 def replay(case):
     acc = Acc()
     key = case["compiler"]
+    if case["part"] == "H":
+        history(key, tuple(tuple(x) for x in case["a"]), tuple(tuple(x) for x in case["b"]), acc)
+        return [(fp, e["cases"][0]["what"]) for fp, e in acc.viol.items()]
     if case["part"] == "A":
         cid = tuple(tuple(x) for x in case["cid"])
         one(key, uprob.make(dict(cid), cc.VARIANT.get(key)), cc.label(key, cid), "plain", case, acc)
@@ -161,6 +243,13 @@ def one(key, ps, plab, nlab, case, acc):
         viol("compile-raises:%s" % tn, "compile raised %s: %s" % (tn, msg[:160]))
         acc.outcome("raises:%s:%s" % (key, tn))
         return
+    judge_result(key, prob, res, viol, acc)
+
+
+def judge_result(key, prob, res, viol, acc):
+    """all well-formedness clauses on one CompilerResult"""
+    from unified_planning.plans import SequentialPlan, ActionInstance
+
     cp = res.problem
     acc.outcome("ok:%s" % key)
     # ---- names unique -----------------------------------------------------------------
